@@ -44,6 +44,20 @@ struct Cell {
         long v = o.read();
         for (int i = 0; i < MAXW; i++) w[i] = v;
     }
+    /// a move constructor that really moves: the source is left in a recognisable
+    /// moved-from state.  (There is deliberately no move assignment: assignment
+    /// always copies and gives the strong guarantee.)  Correct library code never
+    /// moves *from* the wrapped object; if it does, the poison shows up as a
+    /// value nobody wrote.
+    static constexpr long MOVED_FROM = -7777;
+    Cell(Cell&& o) noexcept
+    {
+        gsim::win_begin(&o, true);
+        long v = o.w[0];
+        for (int i = 0; i < MAXW; i++) w[i] = v;
+        for (int i = 0; i < MAXW; i++) o.w[i] = MOVED_FROM;
+        gsim::win_end(&o, true);
+    }
     Cell& operator=(const Cell& o)
     {
         maybe_throw(2);
@@ -69,6 +83,10 @@ struct Cell {
         if (torn)
             gsim::fail("torn", "read of payload %p saw words %ld %ld %ld %ld", (const void*)this,
                        w[0], w[1], w[2], w[3]);
+        if (v == MOVED_FROM)
+            gsim::fail("moved_from_value", "a read of payload %p returned the moved-from state: the "
+                       "library moved out of the wrapped object and did not restore it",
+                       (const void*)this);
         check_model(v, "a read");
         return v;
     }
@@ -95,6 +113,11 @@ struct Cell {
                 gsim::fail("torn", "rmw on payload %p saw words %ld %ld %ld %ld", (void*)this,
                            w[0], w[1], w[2], w[3]);
             }
+        if (v == MOVED_FROM) {
+            gsim::win_end(this, true);
+            gsim::fail("moved_from_value", "a read-modify-write of payload %p found the moved-from "
+                       "state", (void*)this);
+        }
         check_model(v, "a read-modify-write");
         for (int h = 0; h < hold; h++) gsim::yield();
         for (int i = 0; i < W; i++) {
